@@ -288,10 +288,8 @@ def _ev(t, lookup, stat):
     if k in ("sin", "cos", "exp"):
         x = ev(t[1], lookup, stat)
         if isinstance(x, complex):
-            try:
-                return _chk(getattr(cmath, k)(x))
-            except OverflowError:
-                raise OutOfDomain("magnitude")
+            # stated domain (ASSUMPTIONS): complex values only through +, *, -, / and integer powers
+            raise OutOfDomain("function of a complex value")
         if k == "exp" and x > 9:
             raise OutOfDomain("magnitude")
         return _chk(getattr(math, k)(x))
